@@ -17,7 +17,7 @@ WHY = {1: 'transform not finite', 2: 'region without positive finite size', 3: '
        6: 'gradient with fewer than two stops', 7: 'stop offset outside [0,1]', 8: 'stop offsets not in non-decreasing order',
        9: 'radial gradient radius not positive finite', 10: 'path with fewer than two segments',
        11: 'path does not start with a move', 12: 'path coordinate not finite',
-       13: 'text span not on character boundaries inside its chunk', 14: 'gradient coordinate not finite',
+       13: 'text span not on character boundaries inside its chunk',
        15: 'tree size not positive finite', 16: 'text spans do not tile their chunk'}
 
 
@@ -830,7 +830,7 @@ def gen_numeric_doc(rng):
                 % (NS, T(), E(), E(), E(), E(), E(), E(), E()))
     if k == 2:
         return ('<svg %s width="100" height="100"><radialGradient id="g" r="%s" cx="%s" fx="%s" gradientUnits="%s"><stop offset="0.2"/>'
-                '<stop offset="0.2" stop-color="red"/></radialGradient><circle cx="50" cy="50" r="%s" fill="url(#g)" stroke="url(#g)"/></svg>'
+                '<stop offset="0.2" stop-color="red"/></radialGradient><rect x="5" y="5" width="%s" height="40" fill="url(#g)" stroke="url(#g)"/></svg>'
                 % (NS, E(), E(), E(), rng.choice(['userSpaceOnUse', 'objectBoundingBox']), E()))
     if k == 3:
         return ('<svg %s width="100" height="100"><pattern id="p" x="%s" width="%s" height="%s" patternTransform="%s" patternUnits="%s">'
@@ -882,40 +882,49 @@ def ts_bad(t):
     return any(nonfinite(v) for v in t)
 
 
-def class_transform_product_overflow(doc_text, dump):
-    """True iff every non-finite transform of the tree is a *derived product* of finite factors:
-    an `abs_ts` (product of the ancestors' transforms) below finite local transforms, or the transform of a
-    resolved gradient/pattern (definition transform x bounding-box transform), while every transform written
-    in the document is finite in f32.  A non-finite local transform (`ts` of a group, clip path) is NOT in the class."""
-    if doc_text is not None:
-        for m in TS_ATTR_RE.finditer(doc_text):
-            for num in re.findall(r"[-+]?(?:\d+\.?\d*|\.\d+)(?:[eE][-+]?\d+)?", m.group(2)):
-                try:
-                    if abs(float(num)) > F32_MAX:
-                        return False
-                except ValueError:
-                    return False
-    ok = [True]
-    seen = [False]
+def ts_attr_finite(value):
+    """Is the transform list `value` finite as an f32 matrix?  (svgtypes multiplies the items in f64, usvg casts
+    the six coefficients to f32 and rejects a non-finite result.)  Unparsable -> True (usvg ignores it)."""
+    m = [1.0, 0.0, 0.0, 1.0, 0.0, 0.0]
 
-    def rec(o, key=None):
-        if isinstance(o, dict):
-            for k, v in o.items():
-                if k == 'ts' and isinstance(v, list) and ts_bad(v):
-                    # local transform: allowed only on a paint server (resolved gradient / pattern: has 'stops' or 'rect'+'root')
-                    if 'stops' in o or ('rect' in o and 'root' in o and 'kind' not in o and 'mask' not in o):
-                        seen[0] = True
-                    else:
-                        ok[0] = False
-                elif k == 'abs_ts' and isinstance(v, list) and ts_bad(v):
-                    seen[0] = True
-                else:
-                    rec(v, k)
-        elif isinstance(o, list):
-            for v in o:
-                rec(v, key)
-    rec(dump)
-    return ok[0] and seen[0]
+    def mul(a, b):
+        return [a[0] * b[0] + a[2] * b[1], a[1] * b[0] + a[3] * b[1], a[0] * b[2] + a[2] * b[3], a[1] * b[2] + a[3] * b[3],
+                a[0] * b[4] + a[2] * b[5] + a[4], a[1] * b[4] + a[3] * b[5] + a[5]]
+    try:
+        for name, args in re.findall(r"(matrix|translate|scale|rotate|skewX|skewY)\s*\(([^)]*)\)", value):
+            v = [float(x) for x in re.split(r"[\s,]+", args.strip()) if x]
+            if name == 'matrix' and len(v) == 6:
+                t = v
+            elif name == 'translate' and len(v) in (1, 2):
+                t = [1, 0, 0, 1, v[0], v[1] if len(v) == 2 else 0.0]
+            elif name == 'scale' and len(v) in (1, 2):
+                t = [v[0], 0, 0, v[1] if len(v) == 2 else v[0], 0, 0]
+            elif name == 'rotate' and len(v) in (1, 3):
+                a = math.radians(v[0])
+                t = [math.cos(a), math.sin(a), -math.sin(a), math.cos(a), 0, 0]
+                if len(v) == 3:
+                    t = mul(mul([1, 0, 0, 1, v[1], v[2]], t), [1, 0, 0, 1, -v[1], -v[2]])
+            elif name == 'skewX' and len(v) == 1:
+                t = [1, 0, math.tan(math.radians(v[0])), 1, 0, 0]
+            elif name == 'skewY' and len(v) == 1:
+                t = [1, math.tan(math.radians(v[0])), 0, 1, 0, 0]
+            else:
+                return True
+            m = mul(m, t)
+    except (ValueError, OverflowError):
+        return True
+    return all(x == x and abs(x) <= F32_MAX for x in m)
+
+
+def class_computed_transform(doc_text, codes):
+    """Known class `computed-transform-not-finite`: the only violated clause is "every transform is finite" and
+    every transform *written in the document* is finite as an f32 matrix (so the parse-time `is_valid` guard did
+    its job): the non-finite transform was computed by usvg (abs_transform product, use x/y + viewBox placement,
+    bounding-box mapping of a resolved gradient/pattern).  A non-finite transform given in the document, or any
+    other violated clause, is not in the class."""
+    if codes != [1] or doc_text is None:
+        return False
+    return all(ts_attr_finite(m.group(2)) for m in TS_ATTR_RE.finditer(doc_text))
 
 
 def only_transform_fields_nonfinite(dump):
@@ -946,9 +955,13 @@ def jload(o):
         return {'error': 'unparsable harness output'}
 
 
+EXTRA_TREES = []      # trees produced by the correspondence documents: judged by the oracle as well
+
+
 def correspondence(ctx, binp, nper):
     rng = ctx.rng
     ok = True
+    del EXTRA_TREES[:]
     specs = [
         ('stroke', gen_stroke_case, stroke_doc, 'stroke_in * stroke_obs', 'chk_stroke',
          lambda c, d: '(%s, %s)' % (stroke_in_term(c), stroke_obs_term(d))),
@@ -962,11 +975,14 @@ def correspondence(ctx, binp, nper):
     for name, gen, mkdoc, typ, chk, mkitem in specs:
         cases = [gen(rng) for _ in range(nper)]
         docs = [mkdoc(c) for c in cases]
-        outs = ctx.rvh_batch(binp, 'dump', ["-\t" + d for d in docs])
+        outs = ctx.rvh_batch(binp, 'c04-tree', ["-\t" + d for d in docs])
         items = []
         idx = []
         for i, (c, o) in enumerate(zip(cases, outs)):
-            t = jload(o)
+            full = jload(o)
+            t = full.get('dump', full)
+            if 'dump' in full:
+                EXTRA_TREES.append(('crafted %s document #%d' % (name, i), docs[i], full, "-\t" + docs[i]))
             if 'root' not in t:
                 ctx.violation("crafted %s document failed in the parser: %s" % (name, str(t)[:200]),
                               dict(kind='k-' + name, doc=docs[i], case=str(c), result=t))
@@ -993,11 +1009,14 @@ def correspondence(ctx, binp, nper):
     # text chunks
     cases = [gen_text_case(rng) for _ in range(nper)]
     docs = [text_doc(c) for c in cases]
-    outs = ctx.rvh_batch(binp, 'dump', ["-\t" + d for d in docs])
+    outs = ctx.rvh_batch(binp, 'c04-tree', ["-\t" + d for d in docs])
     items = []
     idx = []
     for i, (c, o) in enumerate(zip(cases, outs)):
-        t = jload(o)
+        full = jload(o)
+        t = full.get('dump', full)
+        if 'dump' in full:
+            EXTRA_TREES.append(('crafted text document #%d' % i, docs[i], full, "-\t" + docs[i]))
         obs = text_obs_term(t) if 'root' in t else None
         if obs is None:
             ctx.violation("crafted text document produced no text node: %s" % str(t)[:200], dict(kind='k-text', doc=docs[i]))
@@ -1025,10 +1044,15 @@ def judge_tree(ctx, label, doc_text, res, why, replay):
     """Apply the verdict for one parsed document: validity codes from Coq, written-form scan, units."""
     dump = res['dump']
     codes = sorted(set(why))
+    if codes and doc_text is None and replay.get('payload', '').split('\t')[-1].startswith('@'):
+        try:
+            doc_text = open(replay['payload'].split('\t')[-1][1:], encoding='utf-8', errors='replace').read()
+        except OSError:
+            pass
     if codes:
         text = "; ".join(WHY.get(c, str(c)) for c in codes)
-        if codes == [1] and class_transform_product_overflow(doc_text, dump) and only_transform_fields_nonfinite(dump):
-            ctx.known_or_violation('transform-product-overflow',
+        if class_computed_transform(doc_text, codes):
+            ctx.known_or_violation('computed-transform-not-finite',
                                    "tree of %s is not valid: %s" % (label, text), dict(replay, codes=codes))
         else:
             ctx.violation("tree of %s is not valid: %s" % (label, text), dict(replay, codes=codes))
@@ -1057,7 +1081,7 @@ def oracle(ctx, binp, quick):
     wit = [os.path.join(wdir, f) for f in sorted(os.listdir(wdir)) if f.endswith('.svg')]
     items = []      # (label, payload doc, doc text or None)
     for f in files + wit:
-        items.append((os.path.relpath(f, vlib.REPO) if f.startswith(vlib.REPO) else f, '@' + f, None))
+        items.append((os.path.relpath(f, vlib.REPO) if f.startswith(vlib.REPO) else f, '@' + f, None))   # text read on demand
     nnum = 500 if quick else 6000
     for i in range(nnum):
         d = gen_numeric_doc(rng)
@@ -1088,15 +1112,21 @@ def oracle(ctx, binp, quick):
         if label.startswith('mutant of '):
             opts = 'res=' + os.path.dirname(os.path.join(vlib.REPO, label[len('mutant of '):]))
         payloads.append("%s\t%s" % (opts, doc))
-    outs = ctx.rvh_batch(binp, 'c04-tree', payloads, per_item_timeout=30)
+    # a document that makes the parser spin (e.g. a 1e-46 dash on a 1e20-long stroke: stroke bbox computation) costs
+    # one chunk timeout: keep chunks small
+    outs = ctx.rvh_batch(binp, 'c04-tree', payloads, per_item_timeout=2, chunk=40)
     terms = []
     meta = []
     stats = dict(parsed=0, error=0, crash=0)
     for (label, doc, text), o, pl in zip(items, outs, payloads):
         r = jload(o)
         if 'dump' not in r:
-            if 'crash' in r or 'panic' in r:
+            if 'too_big' in r:
+                stats['too_big'] = stats.get('too_big', 0) + 1
+            elif 'crash' in r or 'panic' in r:
                 stats['crash'] += 1
+                if stats['crash'] <= 3:
+                    ctx.log("note (not a C04 matter): parser crashed on %s: %s" % (label, str(r)[:160]))
             else:
                 stats['error'] += 1
             ctx.note_case('s/' + label, nontrivial=False)
@@ -1104,11 +1134,22 @@ def oracle(ctx, binp, quick):
         stats['parsed'] += 1
         ctx.note_case('s/' + (label if text is None else text))
         try:
-            terms.append(tree_term(r['dump']))
+            tt = tree_term(r['dump'])
+            if len(tt) > 4000000:
+                stats['too_big'] = stats.get('too_big', 0) + 1
+                continue
+            terms.append(tt)
         except (KeyError, ValueError) as e:
             ctx.violation("dump of %s cannot be turned into a Coq term: %r" % (label, e), dict(kind='s-tree', doc=pl), found_input=False)
             continue
         meta.append((label, text, r, pl))
+    for label, text, r, pl in EXTRA_TREES:
+        try:
+            terms.append(tree_term(r['dump']))
+            meta.append((label, text, r, pl))
+            stats['parsed'] += 1
+        except (KeyError, ValueError):
+            pass
     whys = coq_why(ctx, 's_tree', terms)
     if whys is None:
         ctx.violation("valid_tree no longer evaluates on the tree dumps", dict(kind='s-tree'), found_input=False)
@@ -1120,6 +1161,7 @@ def oracle(ctx, binp, quick):
     ctx.cov['oracle'] = dict(stats, corpus=len(files), witnesses=len(wit), generated=nnum, mutants=len(items) - len(files) - len(wit) - nnum,
                              coq_tree_terms=len(terms), coq_term_chars=sum(len(t) for t in terms))
     ctx.add_sample(dict(op='s-tree', doc=items[len(files) + len(wit)][1][:300]))
+    ctx.cov['known_classes_hit'] = [c for c, _ in ctx.known_hits]
 
 
 def model_search(ctx, binp, res, broken):
